@@ -388,6 +388,10 @@ func runC16(c *Ctx) {
 	c.ruleModelTable("Q5-exec-model")
 	// Q6
 	c.ruleConstruction("Q6-instances-alike")
+	// RemoveRules of the pool applies the builder's removal to the master and to every instance: what
+	// the queries and the executions see afterwards is what that removal leaves installed (shared with C08-H6)
+	c.ruleFullBuildAndRemoval("Q7-removal-reinstalls")
+
 }
 
 // model constants of package engine
